@@ -3,6 +3,7 @@
 //! reference = plain struct with the documented clamps; invariant checked in every state.
 
 use crate::common::*;
+use crate::gen::cond::via_clone_from;
 use crate::gen::voice::GenCfg;
 use jbonsai::Condition;
 use serde_json::{json, Value};
@@ -285,6 +286,15 @@ impl Model for CondModel {
     }
 }
 
+fn canonical_all(ns: usize) -> Vec<Act> {
+    let mut v = vec![Act::Rate(22050), Act::Fperiod(7), Act::Volume(-3.0), Act::Speed(1.7), Act::Align(true), Act::Alpha(0.35), Act::Beta(0.15), Act::HalfTone(2.5)];
+    for i in 0..ns {
+        v.push(Act::Msd(i, 0.2 + 0.1 * i as f64));
+        v.push(Act::Gv(i, 0.6 + 0.2 * i as f64));
+    }
+    v
+}
+
 fn alphabet(nstream: usize, tier: Tier) -> Vec<Act> {
     let f_all = [0.0, -0.0, 1.0, -1.0, 0.5, 1e-7, 5e-324, 1e300, -1e300, 2.0, 24.0, -24.0];
     let f_quick = [0.0, -0.0, 1.0, -1.0, 0.5, 1e-7, 5e-324, 1e300, -1e300, 2.0, 24.0, -24.0];
@@ -339,7 +349,7 @@ pub fn run(tier: Tier) -> i32 {
     let rep: &'static Report = Box::leak(Box::new(Report::new("C20", tier, "model_checking")));
     let monitor = std::sync::Arc::new(HangMonitor::start(rep, "C20 setter history"));
     let depth: u8 = tier.pick(2, 3);
-    rep.set_rule("HIST (stateright BFS): all histories of real Condition setter calls up to the depth bound over the listed value alphabet, on V0, a generated 2-stream voice and a generated 4-stream voice (plus the fresh state and every single call, incl. 19 further integers around 2^16, 2^31, 2^32, 2^53, 2^63 and usize::MAX, on generated voices of 5..9 streams, thorough 33), each call made on a copy of the previous state's Condition (which must stay as it was); states merged by (depth, Debug rendering of the real Condition); a state is non-trivial if it differs from the initial rendering; plus a search to closure (depth cap 7/9) over the per-stream setters alone; invariant: every getter equals the clamped reference after every call");
+    rep.set_rule("HIST (stateright BFS): all histories of real Condition setter calls up to the depth bound over the listed value alphabet, on V0, a generated 2-stream voice and a generated 4-stream voice (plus the fresh state and every single call, incl. 19 further integers around 2^16, 2^31, 2^32, 2^53, 2^63 and usize::MAX, on generated voices of 5..9 streams, thorough 33), each call made on a copy of the previous state's Condition (which must stay as it was); states merged by (depth, Debug rendering of the real Condition); a state is non-trivial if it differs from the initial rendering; plus a search to closure (depth cap 7/9) over the per-stream setters alone; plus Condition::clone_from and Engine::clone_from onto a scratch object holding other values everywhere (source: fresh, after every single action, after a canonical assignment of everything): destination indistinguishable from the source; invariant: every getter equals the clamped reference after every call");
     rep.assume("f64 arguments are the 12-value alphabet {0,-0,±1,.5,1e-7,5e-324,±1e300,2,±24}; usize {0,1,2,48000,MAX}; other values are not explored");
     rep.assume("getter vs reference compared numerically (so -0.0 == 0.0), volume within 1e-9 dB");
     let mut total_states = 0u64;
@@ -391,6 +401,53 @@ pub fn run(tier: Tier) -> i32 {
             return 2;
         }
         rep.note(&format!("bounds_{}", if ec.nstream == 3 { "V0" } else if ec.nstream == 2 { "G2" } else { "G4" }), json!({"alphabet": acts.len(), "depth": depth, "unique_states": counts[0].0, "max_depth": counts[0].1}));
+    }
+    // the other way to set every field at once: Clone::clone_from onto a condition (or a whole engine) that holds other
+    // values everywhere and, for engines, comes from another voice. Afterwards destination and source are indistinguishable:
+    // same Debug rendering (which shows the private fields too), same getters, and the source is untouched.
+    {
+        let mut n = 0u64;
+        for ec in engines() {
+            let base = if ec.nstream == 3 { jbonsai::Engine::load(&[BUNDLED]).expect("bundled voice loads") } else { engine_from_bytes(&GenCfg { ns: ec.nstream, rate: 16000, fperiod: 80, alpha: 0.42, ..GenCfg::default() }.bytes()).expect("generated voice loads") };
+            let mut sources: Vec<Vec<Act>> = vec![vec![]];
+            for a in alphabet(ec.nstream, tier) {
+                sources.push(vec![a]);
+            }
+            sources.push(canonical_all(ec.nstream));
+            for acts in &sources {
+                let mut src = base.clone();
+                let mut reference = ec.reference.clone();
+                for a in acts {
+                    a.apply(&mut src.condition);
+                    reference.apply(a);
+                }
+                let before = format!("{:?}", src.condition);
+                for whole in [false, true] {
+                    n += 1;
+                    let dst = match catch(|| via_clone_from(&src, whole)) {
+                        Ok(d) => d,
+                        Err(p) => {
+                            rep.violation("clone-from:panic", format!("clone_from panics: {}", p), json!({"engine": ec.name, "history": acts.iter().map(|a| a.to_json()).collect::<Vec<_>>()}));
+                            continue;
+                        }
+                    };
+                    let what = if format!("{:?}", dst.condition) != before {
+                        Some(format!("Debug renderings differ: destination {:?} vs source {}", dst.condition, before))
+                    } else if format!("{:?}", src.condition) != before {
+                        Some("the source changed".to_string())
+                    } else {
+                        reference.mismatch(&dst.condition)
+                    };
+                    if let Some(w) = what {
+                        rep.violation(format!("clone-from:{}", if whole { "engine" } else { "condition" }), format!("after {}::clone_from(source) onto an object that held other values, on {} with source history {:?}: {}", if whole { "Engine" } else { "Condition" }, ec.name, acts, w.chars().take(700).collect::<String>()), json!({"engine": ec.name, "history": acts.iter().map(|a| a.to_json()).collect::<Vec<_>>(), "then": "clone_from onto a scratch object"}));
+                        break;
+                    }
+                }
+            }
+        }
+        rep.eval(n);
+        rep.transitions.fetch_add(n, std::sync::atomic::Ordering::Relaxed);
+        rep.note("clone_from_cases", json!(n));
     }
     // voices with many streams (5..9, thorough up to 33): the state of a freshly loaded engine and every single setter call
     {
